@@ -214,6 +214,11 @@ impl ReceiveChannelUnreliable {
             .entry(slice.message_id)
             .or_insert_with(|| SliceConstructor::new(slice.message_id, slice.num_slices));
 
+        if slice_constructor.num_slices != slice.num_slices {
+            // The memory reserved for this message was computed from the first slice received
+            return Err(ChannelError::InvalidSliceMessage);
+        }
+
         if let Some(message) = slice_constructor.process_slice(slice.slice_index, &slice.payload)? {
             self.slices.remove(&slice.message_id);
             self.slices_last_received.remove(&slice.message_id);
